@@ -13,7 +13,7 @@
   The extra hypothesis is the one of `OutputWF`: the caller's categories and the targets of the
   unary table are well-formed (`C05.WF`; for the shipped inventories and tables this is
   `Generated.shipped_all_wf`, C17). It is needed only for the English Prolog format; the six record
-  formats and the Japanese Prolog format are total without it.
+  formats, json, html and the Japanese Prolog format are total without it.
 -/
 import Depccg.Props.MainTotalDefs
 import Depccg.Props.ClosureDefs
